@@ -149,6 +149,13 @@ class GroupBCD(BaseSolver):
                 w_acc, Xw_acc, is_extrapolated = accelerator.extrapolate(w, Xw)
 
                 if is_extrapolated:  # avoid computing p_obj for un-extrapolated w, Xw
+                    # the extrapolated model fit suffers from cancellation errors:
+                    # recompute it from the current fit and the change in w
+                    diff_w = w_acc - w
+                    supp = np.flatnonzero(diff_w[:n_features])
+                    Xw_acc = Xw + X[:, supp] @ diff_w[supp]
+                    if self.fit_intercept:
+                        Xw_acc += diff_w[-1]
                     p_obj = datafit.value(y, w, Xw) + penalty.value(w[:n_features])
                     p_obj_acc = (datafit.value(y, w_acc, Xw_acc) +
                                  penalty.value(w_acc[:n_features]))
